@@ -5,6 +5,7 @@ import (
 	"encoding/hex"
 	"errors"
 	"net/url"
+	"regexp"
 	"strconv"
 	"strings"
 	"sync"
@@ -36,14 +37,26 @@ func sanitizeDestURL(dest string) string {
 	return u.String()
 }
 
-func resolveDest(dest string, pathName string, matches []string) string {
-	out := strings.ReplaceAll(dest, "$MTX_PATH", pathName)
+var rePlaceholder = regexp.MustCompile(`\$G[0-9]+|\$MTX_PATH`)
 
-	for i := len(matches) - 1; i >= 1; i-- {
-		out = strings.ReplaceAll(out, "$G"+strconv.FormatInt(int64(i), 10), matches[i])
+func resolveGroup(p string, matches []string) string {
+	// longest index that exists: "$G12" with 5 groups is still $G1 followed by "2", as before
+	for end := len(p); end > 2 && p[2] != '0'; end-- {
+		i, err := strconv.Atoi(p[2:end])
+		if err == nil && i < len(matches) {
+			return matches[i] + p[end:]
+		}
 	}
+	return p
+}
 
-	return out
+func resolveDest(dest string, pathName string, matches []string) string {
+	return rePlaceholder.ReplaceAllStringFunc(dest, func(p string) string {
+		if p == "$MTX_PATH" {
+			return pathName
+		}
+		return resolveGroup(p, matches)
+	})
 }
 
 // DestHandler manages a forward destination.
